@@ -15,6 +15,7 @@
 #include <covfie/core/field.hpp>
 #include <covfie/core/field_view.hpp>
 
+#include "probes.hpp"
 #include "vh.hpp"
 
 typedef __float128 Q;
@@ -225,6 +226,79 @@ struct Arr {
     }
 };
 
+// ---------------------------------------------------------------- probe-backed: which cell is read?
+// The storage records the flat index it is asked for and has no memory behind it, so the extents can be
+// 2^26 and the VALUE type arbitrary (the index must not depend on it).
+template <typename R, typename VAL, std::size_t N>
+static void which_cell(vh::Rng & rng, unsigned nfields, unsigned ncoords)
+{
+    using order_t = cb::strided<cv::vector_d<std::size_t, N>, probe::flat<cv::vector_d<VAL, 1>>>;
+    using backend_t = cb::nearest_neighbour<order_t, cv::vector_d<R, N>>;
+    using field_t = covfie::field<backend_t>;
+    std::string name = std::string("nn<strided<probe<") + vh::tn<VAL>() + ">>>,N=" + std::to_string(N) + "," + vh::tn<R>() + ":cell-read";
+    if (!vh::selected(name)) return;
+    const R inf = std::numeric_limits<R>::infinity();
+    const unsigned maxbits = (sizeof(R) == 4 ? 22u : 40u) / (unsigned)N + (N == 1 ? (sizeof(R) == 4 ? 0u : 0u) : 0u);
+    for (unsigned fi = 0; fi < nfields; ++fi) {
+        covfie::utility::nd_size<N> ext;
+        uint64_t len = 1;
+        for (std::size_t k = 0; k < N; ++k) {
+            ext[k] = 2 + rng.below(1ull << (1 + rng.below(maxbits)));
+            if (fi % 3 == 0 && k == 0) ext[k] = (1ull << maxbits) + 5;   // the largest axis the coordinate type resolves
+            len *= ext[k];
+        }
+        vh::set_case("%s extents=%s", name.c_str(), vh::jarr(ext, N).c_str());
+        field_t f(covfie::make_parameter_pack(std::monostate{}, typename order_t::configuration_t(ext), covfie::utility::nd_size<1>{len}));
+        probe::FlatLog & log = f.backend().get_backend().get_backend().log();
+        typename field_t::view_t v(f);
+        for (unsigned q = 0; q < ncoords; ++q) {
+            typename field_t::coordinate_t c;
+            R x[N];
+            for (std::size_t k = 0; k < N; ++k) {
+                uint64_t cell = rng.below(ext[k]);
+                switch (rng.below(7)) {
+                case 0: cell = ext[k] - 1; break;
+                case 1: cell = ext[k] > 300 ? 255 + rng.below(4) : cell; break;            // around 2^8
+                case 2: cell = ext[k] > 70000 ? 65535 + rng.below(4) : cell; break;        // around 2^16
+                case 3: cell = ext[k] > (1ull << 24) + 8 ? (1ull << 24) + rng.below(6) : cell; break;  // beyond float's integers
+                default: break;
+                }
+                R xv;
+                switch (rng.below(4)) {
+                case 0: xv = (R)cell; break;
+                case 1: xv = std::nextafter((R)cell + (R)0.5, -inf); break;
+                case 2: xv = std::nextafter((R)cell - (R)0.5, inf); break;
+                default: xv = (R)((double)cell + (rng.unit() - 0.5) * 0.98); break;
+                }
+                if (!((Q)xv > (Q)-0.5)) xv = 0;
+                if (!((Q)xv < (Q)ext[k] - (Q)0.5)) xv = (R)(ext[k] - 1);
+                x[k] = xv;
+                c[k] = xv;
+            }
+            uint64_t oob0 = log.oob;
+            (void)v.at(c);
+            uint64_t idx = log.last;
+            vh::ev();
+            bool nt = false;
+            for (std::size_t k = 0; k < N; ++k) nt = nt || near_half_or_wide(x[k]) || x[k] > 255;
+            if (nt) vh::nontrivial(vh::fnv(x, sizeof x, vh::fnv(&ext, sizeof ext, vh::fnv(name))));
+            // decode the flat index (row-major by the layer's published definition) and test every axis
+            bool ok = log.oob == oob0;
+            uint64_t p[N], rem = idx;
+            for (std::size_t k = N; k-- > 0;) {
+                p[k] = rem % ext[k];
+                rem /= ext[k];
+            }
+            for (std::size_t k = 0; ok && k < N; ++k) ok = fabsq((Q)p[k] - (Q)x[k]) <= (Q)0.5;
+            if (!ok) {
+                vh::viol(name, "extents=" + vh::jarr(ext, N) + " x0=" + vh::hexfloat((double)x[0]) + " x=" + vh::jarr(x, N) + " read flat index " + std::to_string(idx) + " = cell " + vh::jarr(p, N));
+                break;
+            }
+            if (fi == 0 && q == 1) vh::sample(name, "extents=" + vh::jarr(ext, N) + " x=" + vh::jarr(x, N) + " reads cell " + vh::jarr(p, N), 1);
+        }
+    }
+}
+
 int main(int argc, char ** argv)
 {
     vh::init(argc, argv);
@@ -240,6 +314,9 @@ int main(int argc, char ** argv)
     Arr<float, 1>::run(rng, th);
     Arr<float, 2>::run(rng, th);
     Arr<float, 3>::run(rng, th);
+    which_cell<float, float, 1>(rng, th ? 60 : 12, th ? 4000 : 800);
+    which_cell<float, unsigned char, 2>(rng, th ? 60 : 12, th ? 4000 : 800);
+    which_cell<float, double, 3>(rng, th ? 60 : 12, th ? 4000 : 800);
 #endif
 #if defined(SH_DOUBLE)
     Ident<std::size_t, double, 1>().run(rng, th);
@@ -251,6 +328,10 @@ int main(int argc, char ** argv)
     Arr<double, 1>::run(rng, th);
     Arr<double, 2>::run(rng, th);
     Arr<double, 3>::run(rng, th);
+    which_cell<double, float, 1>(rng, th ? 60 : 12, th ? 4000 : 800);
+    which_cell<double, unsigned char, 1>(rng, th ? 60 : 12, th ? 4000 : 800);
+    which_cell<double, short, 2>(rng, th ? 60 : 12, th ? 4000 : 800);
+    which_cell<double, double, 3>(rng, th ? 60 : 12, th ? 4000 : 800);
 #endif
     return vh::finish();
 }
